@@ -25,6 +25,15 @@ CHECKS = {
         "the real Terminal; TLC judges every recorded step (events, labels, sequence numbers, stream ids, outcome).",
         "Burst content is abstract in the model (classes); voice bursts with RC-sync/reserved sync are outside the alphabet; secrets.token_bytes replaced by a counter; rx wrap at 256 only via long random histories.",
     ),
+    "C07": (
+        "DESIGN.md 5/C07",
+        "TLC exhaustive model of generator arithmetic composed with the tracker model (Fragmentation.tla) + replay of every printed configuration through the real generator/parser/Terminal + TLC trace validation",
+        "TLC enumerates all configurations (payload length x 3 rates x 2 modes x preamble counts) of the generator model "
+        "written from ETSI Table 8.1, runs them through the tracker model and checks the C07 clauses; N and pad of each "
+        "configuration are printed and used to drive the real TransmissionGenerator; its bursts are serialised, parsed and fed "
+        "to a real Terminal, and TLC judges the recorded run (per-burst tracker monitor + summary clauses).",
+        "Payload/CRC-32 byte equality is computed by the harness with the library's CRC32 (C05) and judged as booleans by TLC; N<=127; header built by the harness from the spec's N/pad.",
+    ),
 }
 
 NOT_YET = {}
